@@ -1,5 +1,5 @@
-//go:build verif
-// +build verif
+//go:build verif && !race
+// +build verif,!race
 
 package netpoll
 
